@@ -260,9 +260,18 @@ func (ex *Exec) stringEq(a, b *SliceV) *Term {
 		return TTrue
 	}
 	if a.Obj != nil && b.Obj != nil && a.Obj != b.Obj && (a.Obj.Doc != nil || b.Obj.Doc != nil) {
-		// documents written by different operations are treated as different text (the caller
-		// then re-parses: a superset of the behaviours of comparing equal texts)
-		return TFalse
+		// two store documents: the JSON text is canonical (sorted keys), so whole documents are
+		// equal as text exactly when they encode the same map
+		if a.Obj.Doc == nil || b.Obj.Doc == nil {
+			return TFalse
+		}
+		wholeA := AndB(Eq(a.Off, BV(64, 0)), Eq(a.Len, a.Obj.DocLen))
+		wholeB := AndB(Eq(b.Off, BV(64, 0)), Eq(b.Len, b.Obj.DocLen))
+		if wholeA != TTrue || wholeB != TTrue {
+			// partial documents (after a faulted write) are never equal to a complete one
+			return AndB(wholeA, wholeB, docEq(a.Obj.Doc, b.Obj.Doc))
+		}
+		return docEq(a.Obj.Doc, b.Obj.Doc)
 	}
 	if la, ok := a.Len.ConstVal(); ok {
 		if lb, ok := b.Len.ConstVal(); ok && la != lb {
